@@ -922,6 +922,15 @@ class Model:
 
         """
         value = self._parameters[name].value if initial_value is None else initial_value
+        if stoichiometries is not None:
+            # Reject unknown reactions before changing anything
+            for rxn_name in stoichiometries:
+                if rxn_name not in self._reactions and not any(
+                    surrogate.stoichiometries.get(rxn_name)
+                    for surrogate in self._surrogates.values()
+                ):
+                    msg = f"Reaction '{rxn_name}' not found in reactions or surrogates"
+                    raise KeyError(msg)
         self.remove_parameter(name)
         self.add_variable(name, value)
 
